@@ -1,0 +1,149 @@
+//! Verification hooks.
+//!
+//! This module only exists when the crate is built with `--cfg calloop_verif`.
+//! Everything in here is either a pure accessor, a read-only statistic, or a
+//! no-op unless a test harness installs a callback.
+
+use std::cell::{Cell, RefCell};
+use std::sync::RwLock;
+use std::time::{Duration, Instant};
+
+use crate::sys::PollEvent;
+use crate::token::TokenInner;
+use crate::{RegistrationToken, Token, TokenFactory};
+
+thread_local! {
+    static CLOCK_OFFSET: Cell<Duration> = const { Cell::new(Duration::ZERO) };
+    #[allow(clippy::type_complexity)]
+    static BATCH_SINK: RefCell<Option<Box<dyn FnMut(&[(usize, bool, bool)])>>> = const { RefCell::new(None) };
+}
+
+/// Shift the clock seen by `Poll::poll` on this thread by `offset` into the future.
+pub fn set_clock_offset(offset: Duration) {
+    CLOCK_OFFSET.with(|c| c.set(offset));
+}
+
+pub(crate) fn shift(now: Instant) -> Instant {
+    CLOCK_OFFSET.with(|c| now.checked_add(c.get()).unwrap_or(now))
+}
+
+/// Install (or remove) the receiver of the batches `Poll::poll` returns on this thread.
+#[allow(clippy::type_complexity)]
+pub fn set_batch_sink(sink: Option<Box<dyn FnMut(&[(usize, bool, bool)])>>) {
+    BATCH_SINK.with(|s| *s.borrow_mut() = sink);
+}
+
+pub(crate) fn report_batch(events: &[PollEvent]) {
+    BATCH_SINK.with(|s| {
+        if let Ok(mut guard) = s.try_borrow_mut() {
+            if let Some(sink) = guard.as_mut() {
+                let v: Vec<(usize, bool, bool)> = events
+                    .iter()
+                    .map(|e| {
+                        (
+                            usize::from(e.token.inner),
+                            e.readiness.readable,
+                            e.readiness.writable,
+                        )
+                    })
+                    .collect();
+                sink(&v);
+            }
+        }
+    });
+}
+
+/// `usize::from(TokenInner { id, version, sub_id })`
+pub fn token_pack(id: u32, version: u16, sub_id: u16) -> usize {
+    usize::from(TokenInner::verif_from_parts(id, version, sub_id))
+}
+
+/// `TokenInner::from(key)` as `(id, version, sub_id)`
+pub fn token_unpack(key: usize) -> (u32, u16, u16) {
+    TokenInner::from(key).verif_parts()
+}
+
+/// `increment_version`
+pub fn token_increment_version(id: u32, version: u16, sub_id: u16) -> (u32, u16, u16) {
+    TokenInner::verif_from_parts(id, version, sub_id)
+        .increment_version()
+        .verif_parts()
+}
+
+/// `increment_sub_id` (panics on overflow, as the original)
+pub fn token_increment_sub_id(id: u32, version: u16, sub_id: u16) -> (u32, u16, u16) {
+    TokenInner::verif_from_parts(id, version, sub_id)
+        .increment_sub_id()
+        .verif_parts()
+}
+
+/// `forget_sub_id`
+pub fn token_forget_sub_id(id: u32, version: u16, sub_id: u16) -> (u32, u16, u16) {
+    TokenInner::verif_from_parts(id, version, sub_id)
+        .forget_sub_id()
+        .verif_parts()
+}
+
+/// `same_source_as`
+pub fn token_same_source_as(a: (u32, u16, u16), b: (u32, u16, u16)) -> bool {
+    TokenInner::verif_from_parts(a.0, a.1, a.2)
+        .same_source_as(TokenInner::verif_from_parts(b.0, b.1, b.2))
+}
+
+/// `TokenInner::new(id)` (None when the id is not representable)
+pub fn token_new(id: usize) -> Option<(u32, u16, u16)> {
+    TokenInner::new(id).ok().map(|t| t.verif_parts())
+}
+
+/// A `TokenFactory` for the slot token `(id, version, sub_id)`
+pub fn token_factory(id: u32, version: u16, sub_id: u16) -> TokenFactory {
+    TokenFactory::new(TokenInner::verif_from_parts(id, version, sub_id))
+}
+
+/// Raw poller key of the registration token of a factory
+pub fn factory_registration_key(factory: &TokenFactory) -> usize {
+    registration_token_key(&factory.registration_token())
+}
+
+/// Raw poller key of a `Token`
+pub fn token_key(token: &Token) -> usize {
+    usize::from(token.inner)
+}
+
+/// Raw poller key of a `RegistrationToken`
+pub fn registration_token_key(token: &RegistrationToken) -> usize {
+    usize::from(token.verif_inner())
+}
+
+/// Read-only statistics of an event loop
+#[derive(Clone, Debug, Default, PartialEq, Eq)]
+pub struct LoopStats {
+    /// (slot token key, occupied) for every slot
+    pub slots: Vec<(usize, bool)>,
+    /// registration-token keys in the additional-lifecycle set, in order
+    pub lifecycle: Vec<usize>,
+    /// (counter, token key) of every timer-wheel entry, sorted
+    pub wheel: Vec<(u32, usize)>,
+    /// next counter of the timer wheel
+    pub wheel_counter: u32,
+    /// pending post action: 0 Continue, 1 Reregister, 2 Disable, 3 Remove
+    pub pending_action: u8,
+    /// number of queued idle callbacks
+    pub idles: usize,
+}
+
+type YieldHook = Box<dyn Fn(u32) + Send + Sync>;
+static YIELD_HOOK: RwLock<Option<YieldHook>> = RwLock::new(None);
+
+/// Install (or remove) the process-wide yield-point callback.
+pub fn set_yield_hook(hook: Option<YieldHook>) {
+    *YIELD_HOOK.write().unwrap_or_else(|e| e.into_inner()) = hook;
+}
+
+/// A scheduling point; does nothing unless a hook is installed.
+pub fn yield_point(id: u32) {
+    let guard = YIELD_HOOK.read().unwrap_or_else(|e| e.into_inner());
+    if let Some(hook) = guard.as_ref() {
+        hook(id);
+    }
+}
